@@ -177,3 +177,41 @@ func (c *Check) constValue(pkgRel, name string) (string, bool) {
 	_ = ok
 	return constOf(obj)
 }
+
+// constValue2 reads a constant of any loaded package (by import path).
+func (c *Check) constValue2(pkgPath, name string) (string, bool) {
+	pk, ok := c.P.pkgOf[pkgPath]
+	if !ok {
+		return "", false
+	}
+	obj := pk.Types.Scope().Lookup(name)
+	if obj == nil {
+		return "", false
+	}
+	return constOf(obj)
+}
+
+// phiInitOf returns the constant a loop-carried variable enters its loop with.
+func phiInitOf(fn *ssa.Function, name string) string {
+	for _, b := range fn.Blocks {
+		for _, in := range b.Instrs {
+			phi, ok := in.(*ssa.Phi)
+			if !ok {
+				break
+			}
+			if phi.Comment != name {
+				continue
+			}
+			for i, e := range phi.Edges {
+				if b.Dominates(b.Preds[i]) {
+					continue // back edge
+				}
+				if k, ok := e.(*ssa.Const); ok {
+					return constStr(k)
+				}
+				return e.Name()
+			}
+		}
+	}
+	return ""
+}
